@@ -99,6 +99,21 @@ inline int used_labels(const Seq &s) { int u = 0; for (auto &g : s) u |= g.uses 
 
 // F-B: programs over the jump alphabet that use at least one label; each used label is defined exactly once, on any
 // statement (also inside loop bodies, also both on one statement)
+// F-B with a used label left undefined (or defined twice): sources the compiler must reject; used to check that nothing
+// ill-formed is emitted should one be accepted
+inline void enum_FB_undefined(int maxnodes, int depth, const std::function<void(const Seq &)> &cb) {
+  Alphabet A = alphabet_FB();
+  for (int n = 1; n <= maxnodes; n++) {
+    Seq cur;
+    enum_seq(A, n, depth, cur, [&](const Seq &s0) {
+      int u = used_labels(s0); if (!u) return;
+      Seq s = s0; std::vector<GS *> pos; preorder(s, pos); int np = (int)pos.size();
+      // la undefined (lb, if used, placed everywhere)
+      for (int pb = 0; pb < ((u & 2) ? np : 1); pb++) { for (auto p : pos) p->labels.clear(); if (u & 2) pos[pb]->labels += "lb: "; if (u & 1) cb(s); }
+      if (u & 2) for (int pa = 0; pa < ((u & 1) ? np : 1); pa++) { for (auto p : pos) p->labels.clear(); if (u & 1) pos[pa]->labels += "la: "; cb(s); }
+    });
+  }
+}
 inline void enum_FB(int maxnodes, int depth, const std::function<void(const Seq &)> &cb) {
   Alphabet A = alphabet_FB();
   for (int n = 1; n <= maxnodes; n++) {
